@@ -238,3 +238,59 @@ func Unrouted(auth Bearer) []Req {
 
 // Label names the mutation.
 func (m mutation) Label() string { return m.label }
+
+// AudVariant is one shape of the aud claim; everything else about the bearer stays valid.
+type AudVariant struct {
+	Label string
+	Aud   interface{}
+	Valid bool // does aud contain the host, as an exact string?
+}
+
+// AudienceVariants is the audience dimension: look-alikes on both sides of the relay's own audience
+// (values that extend it, proper prefixes of it, slash and case variants), lists in which only look-alikes
+// occur, empty-string entries, and the few shapes that do contain the exact host.
+func AudienceVariants(host string) []AudVariant {
+	n := len(host)
+	up := "HTTP" + host[4:]
+	v := []AudVariant{
+		{"extends:dot-domain", []string{host + ".example.org"}, false},
+		{"extends:dash", []string{host + "-dev"}, false},
+		{"extends:digit", []string{host + "0"}, false},
+		{"extends:path", []string{host + "/tenant-b"}, false},
+		{"extends:slash", []string{host + "/"}, false},
+		{"extends:slash-as-string", host + "/", false},
+		{"extends:space", []string{host + " "}, false},
+		{"extends:query", []string{host + "?x=1"}, false},
+		{"extends:fragment", []string{host + "#"}, false},
+		{"extends:userinfo", []string{host + "@evil.example"}, false},
+		{"prefix:minus-one", []string{host[:n-1]}, false},
+		{"prefix:minus-two", []string{host[:n-2]}, false},
+		{"prefix:no-port", []string{host[:len("http://127.0.0.1")]}, false},
+		{"prefix:scheme", []string{"http:"}, false},
+		{"prefix:one-char", []string{host[:1]}, false},
+		{"prefix:as-string", host[:n-1], false},
+		{"case:upper-scheme", []string{up}, false},
+		{"case:title", []string{"Http" + host[4:]}, false},
+		{"leading-space", []string{" " + host}, false},
+		{"many:only-lookalikes", []string{host + "0", host[:n-1], host + "/"}, false},
+		{"many:empty-and-lookalike", []string{"", host + "/"}, false},
+		{"many:all-empty", []string{"", ""}, false},
+		{"many:lookalike-and-other", []string{host + "/", "https://other.example"}, false},
+		{"many:host-twice-damaged", []string{host + host}, false},
+		{"valid:empty-then-host", []string{"", host}, true},
+		{"valid:host-then-empty", []string{host, ""}, true},
+		{"valid:lookalike-and-host", []string{host + "0", host}, true},
+		{"valid:host-as-string", host, true},
+		{"valid:host-among-many", []string{"https://a.example", host + "/", host, host[:n-1]}, true},
+	}
+	return v
+}
+
+// WithAud returns base with its aud claim replaced.
+func WithAud(base Bearer, av AudVariant) Bearer {
+	b := base
+	b.Claims = cloneClaims(base.Claims)
+	b.Claims["aud"] = av.Aud
+	b.Label = "audience:" + av.Label
+	return b
+}
